@@ -6,7 +6,7 @@ import sys
 from common import Result, pmap, compare, Catch, VERIF
 
 ID = 'C15'
-COQ_FILES = ['Properties/C15.v', 'Proofs/TextProofs.v', 'Gen/CaseTables.v']
+COQ_FILES = ['Properties/C15.v', 'Proofs/TextProofs.v', 'Proofs/TextAlgebra.v', 'Gen/CaseTables.v']
 TRUSTED = [
     'Gen/CaseTables.v is regenerated on every run by tools/gen/casetables.py from the running interpreter '
     '(str.upper/lower/title and casedness of the C15 alphabet U+0000..U+024F + CJK samples, closed under the mappings); '
@@ -140,6 +140,16 @@ def check_string(c):
         exp('MID(s,st,k)', s[st - 1:st - 1 + k], s=s, st=st, k=k)
         if n <= L:
             exp('LEFT(s,n)&RIGHT(s,LEN(s)-n)', s, s=s, n=n)
+        # laws of Proofs/TextAlgebra.v, asked of the implementation as nested formulas
+        exp('LEN(LEFT(s,n))', min(n, L), s=s, n=n)
+        exp('LEN(RIGHT(s,n))', min(n, L), s=s, n=n)
+        exp('LEN(MID(s,st,k))', max(0, min(k, L - n)), s=s, st=st, k=k)
+        exp('LEFT(LEFT(s,n),k)', s[:min(n, k)], s=s, n=n, k=k)
+        if n + k <= L:
+            exp('LEFT(s,st-1)&MID(s,st,k)&RIGHT(s,LEN(s)-(st-1)-k)', s, s=s, st=st, k=k)
+        exp('MID(s&t,LEN(s)+st,k)', t[st - 1:st - 1 + k], s=s, t=t, st=st, k=k)
+        exp('LEFT(s&t,LEN(s))', s, s=s, t=t)
+        exp('RIGHT(s&t,LEN(t))', t, s=s, t=t)
     else:
         for f in ('LEFT(s,n)', 'RIGHT(s,n)', 'MID(s,1,n)'):
             exp(f, ('ERR', '#VALUE!'), s=s, n=n)
@@ -177,6 +187,7 @@ def check_string(c):
     cl = ''.join(ch for ch in s if ord(ch) > 31)
     exp('CLEAN(s)', cl, s=s)
     exp('CLEAN(CLEAN(s))', cl, s=s)
+    exp('CLEAN(s&t)', cl + ''.join(ch for ch in t if ord(ch) > 31), s=s, t=t)
     # SUBSTITUTE (the property restricts old to non-self-overlapping text)
     if old and non_self_overlapping(old):
         exp('SUBSTITUTE(s,o,w)', s.replace(old, new), s=s, o=old, w=new)
